@@ -118,12 +118,43 @@ fn rvid(r: &mut Rng) -> ReadValueId { ReadValueId { node_id: node(r), attribute_
 fn sub_id(r: &mut Rng, subs: &[u32]) -> u32 { if !subs.is_empty() && r.chance(4, 5) { *r.pick(subs) } else { r.below(5) as u32 } }
 fn eo<T: BinaryEncoder<T>>(id: ObjectId, v: &T) -> ExtensionObject { ExtensionObject::from_encodable(id, v) }
 
+/// a select clause / attribute operand: any type definition node and a path of 1..3 names that exist somewhere
+/// in the standard address space as children of every node class (variables, objects, METHODS, TYPES), or not at all
+fn simple_operand(r: &mut Rng) -> SimpleAttributeOperand {
+    let tdef: NodeId = match r.below(8) {
+        0 | 1 | 2 => ObjectTypeId::BaseEventType.into(),
+        3 => ObjectId::Server.into(),
+        4 => ObjectTypeId::BaseObjectType.into(),
+        5 => ObjectId::ObjectsFolder.into(),
+        6 => ObjectTypeId::ServerType.into(),
+        _ => node(r),
+    };
+    let names = ["Message", "Severity", "EventId", "Nope", "GetMonitoredItems", "ResendData", "ServerCapabilities", "ServerStatus", "NamespaceArray",
+                 "AuditEventType", "SystemEventType", "BaseModelChangeEventType", "Server", "Objects", "Types", "State", "BuildInfo", "v0", "Sample", ""];
+    if r.chance(1, 2) {
+        // a child that exists under the type definition node, of every node class: variable, object, method, type
+        let pairs: [(NodeId, &str); 14] = [(ObjectId::Server.into(), "GetMonitoredItems"), (ObjectId::Server.into(), "ServerCapabilities"), (ObjectId::Server.into(), "ServerStatus"),
+            (ObjectId::Server.into(), "NamespaceArray"), (ObjectTypeId::ServerType.into(), "GetMonitoredItems"), (ObjectTypeId::ServerType.into(), "ServerStatus"),
+            (ObjectTypeId::BaseEventType.into(), "AuditEventType"), (ObjectTypeId::BaseEventType.into(), "SystemEventType"), (ObjectTypeId::BaseEventType.into(), "Message"),
+            (ObjectTypeId::BaseObjectType.into(), "BaseEventType"), (ObjectTypeId::BaseObjectType.into(), "FolderType"), (ObjectId::ObjectsFolder.into(), "Server"),
+            (ObjectId::TypesFolder.into(), "ObjectTypes"), (ObjectId::RootFolder.into(), "Types")];
+        let (t, n) = r.pick(&pairs).clone();
+        return SimpleAttributeOperand { type_definition_id: t, browse_path: Some(vec![QualifiedName::new(0, n)]),
+            attribute_id: *r.pick(&[13u32, 1, 2, 4]), index_range: UAString::null() };
+    }
+    let n = 1 + r.below(3);
+    let path: Vec<QualifiedName> = (0..n).map(|_| if r.chance(1, 12) { qname(r) } else { QualifiedName::new(0, *r.pick(&names)) }).collect();
+    SimpleAttributeOperand { type_definition_id: tdef, browse_path: if r.chance(1, 12) { None } else { Some(path) },
+        attribute_id: attr(r), index_range: if r.chance(3, 4) { UAString::null() } else { range(r) } }
+}
+
 fn operand(r: &mut Rng) -> ExtensionObject {
     match r.below(6) {
         0 => eo(ObjectId::ElementOperand_Encoding_DefaultBinary, &ElementOperand { index: r.below(6) as u32 }),
         1 | 2 => eo(ObjectId::LiteralOperand_Encoding_DefaultBinary, &LiteralOperand { value: variant(r) }),
-        3 => eo(ObjectId::SimpleAttributeOperand_Encoding_DefaultBinary, &SimpleAttributeOperand { type_definition_id: ObjectTypeId::BaseEventType.into(),
-                browse_path: Some(vec![QualifiedName::new(0, *r.pick(&["Message", "Severity", "EventId", "Nope"]))]), attribute_id: attr(r), index_range: range(r) }),
+        3 => if r.chance(1, 2) { eo(ObjectId::SimpleAttributeOperand_Encoding_DefaultBinary, &simple_operand(r)) } else {
+             eo(ObjectId::SimpleAttributeOperand_Encoding_DefaultBinary, &SimpleAttributeOperand { type_definition_id: ObjectTypeId::BaseEventType.into(),
+                browse_path: Some(vec![QualifiedName::new(0, *r.pick(&["Message", "Severity", "EventId", "Nope"]))]), attribute_id: attr(r), index_range: range(r) }) },
         4 => eo(ObjectId::AttributeOperand_Encoding_DefaultBinary, &AttributeOperand { node_id: node(r), alias: UAString::null(), browse_path: RelativePath { elements: None }, attribute_id: attr(r), index_range: range(r) }),
         _ => if r.chance(1, 2) { ExtensionObject::null() } else { eo(ObjectId::ReadRequest_Encoding_DefaultBinary, &ElementOperand { index: 0 }) },
     }
@@ -141,7 +172,8 @@ fn filter(r: &mut Rng) -> ExtensionObject {
             let elements: Vec<ContentFilterElement> = (0..n).map(|_| { let k = r.below(4); ContentFilterElement { filter_operator: *r.pick(&ops),
                 filter_operands: if r.chance(1, 8) { None } else { Some((0..k).map(|_| operand(r)).collect()) } } }).collect();
             eo(ObjectId::EventFilter_Encoding_DefaultBinary, &EventFilter {
-                select_clauses: if r.chance(1, 6) { None } else { Some(vec![SimpleAttributeOperand { type_definition_id: ObjectTypeId::BaseEventType.into(), browse_path: Some(vec![QualifiedName::new(0, "Message")]), attribute_id: 13, index_range: UAString::null() }]) },
+                select_clauses: if r.chance(1, 6) { None } else if r.chance(1, 3) { Some(vec![SimpleAttributeOperand { type_definition_id: ObjectTypeId::BaseEventType.into(), browse_path: Some(vec![QualifiedName::new(0, "Message")]), attribute_id: 13, index_range: UAString::null() }]) }
+                    else { let k = 1 + r.below(4); Some((0..k).map(|_| simple_operand(r)).collect()) },
                 where_clause: ContentFilter { elements: if elements.is_empty() && r.chance(1, 2) { None } else { Some(elements) } } })
         }
     }
